@@ -39,26 +39,26 @@ type specFuncInfo struct {
 const modulePath = "github.com/yandex/pandora"
 
 type Engine struct {
-	repo        string
-	u           *Universe
-	files       []*ContractFile
-	pkgs        map[string]*pkgInfo
-	allTypes    map[string]*types.Package
-	blocks      map[string]*Block // "pkgPath|key" for func blocks, FullName for ext, "iface|path.I.M", "field|pkgPath|T.f"
-	specFuncs   map[string]*specFuncInfo
-	ghostDecls  map[string]*ghostDecl
-	closures    map[string]*closure
-	litKeys     map[*ast.FuncLit]string
-	declIndex   map[string]*declInfo // FullName -> decl
-	axioms      []*Axiom
-	autoInline  map[string]bool
-	ranges      bool
-	debug       bool
+	repo            string
+	u               *Universe
+	files           []*ContractFile
+	pkgs            map[string]*pkgInfo
+	allTypes        map[string]*types.Package
+	blocks          map[string]*Block // "pkgPath|key" for func blocks, FullName for ext, "iface|path.I.M", "field|pkgPath|T.f"
+	specFuncs       map[string]*specFuncInfo
+	ghostDecls      map[string]*ghostDecl
+	closures        map[string]*closure
+	litKeys         map[*ast.FuncLit]string
+	declIndex       map[string]*declInfo // FullName -> decl
+	axioms          []*Axiom
+	autoInline      map[string]bool
+	ranges          bool
+	debug           bool
 	needSubAxiom    bool
 	needAppendAxiom bool
-	scratch     *Unit
-	axiomsDone  bool
-	guards      map[string]string // mangled type name + "." + field -> mutex field
+	scratch         *Unit
+	axiomsDone      bool
+	guards          map[string]string // mangled type name + "." + field -> mutex field
 }
 
 func NewEngine(repo string) *Engine {
